@@ -71,6 +71,8 @@ Tracked(H, si, sh) == InDomI(H, si, sh) /\ H.S.imm[si][sh].st = "incoming" /\ H.
 \* remove_write_bucket: the close handler forgets every bucket that is no longer being written
 Clean(H) == [H EXCEPT !.up = [p \in DOMAIN H.up |-> IF H.S.imm[p[1]][p[2]].st = "incoming" THEN H.up[p] ELSE "none"]]
 HAdvance(H, dt) == Clean([H EXCEPT !.S = Advance(H.S, dt)])
+\* time passes and the lease checker then completes a cycle behind the HTTP server's back
+HExpire(H, dt) == Clean([H EXCEPT !.S = ExpireShares(Advance(H.S, dt))])
 
 NoBody == [k |-> "none"]
 BytesBody(d) == [k |-> "bytes", data |-> d]
